@@ -468,4 +468,272 @@ theorem b_inverse_str (t n r : Int) (w : wdOf t < 5) (hlo : 6 * DAYUS ≤ t) (h 
 example : wdOf 63082627200000000 < 5 ∧ 6 * DAYUS ≤ 63082627200000000 ∧
     okVal (bumpStr 63082627200000000 (tenor (-13) 'b')) = some 63080985600000000 := by decide +kernel
 
+/-! ### fixed-length and month units: exactness and inverses, stated on the unit table and on strings -/
+
+/-- `+x` then `-x` for a fixed-length unit, as a statement about the UNIT TABLE: whatever step the table gives for `(c, n)`
+and for `(c, -n)`, the second undoes the first (for a datetime `t`) -/
+theorem fixed_inverse_table (c : Char) (us : Int) (hc : unitUs c = some us) (t n r : Int) (ht : InRange t) :
+    ∃ st st', bumpUnit c n = some st ∧ bumpUnit c (-n) = some st' ∧ (applyStep t st = .ok r → applyStep r st' = .ok t) := by
+  obtain ⟨st, h1, e1⟩ := fixed_units_exact t n c us hc
+  obtain ⟨st', h2, e2⟩ := fixed_units_exact r (-n) c us hc
+  refine ⟨st, st', h1, h2, ?_⟩
+  intro h
+  rw [e1, checkRange_ok] at h
+  rw [e2, checkRange_ok, h.2, Int.neg_mul]
+  exact ⟨by have : t + n * us + -(n * us) = t := by omega
+            rw [this]; exact ht, by omega⟩
+
+example : unitUs 'h' = some 3600000000 ∧ InRange 63082281600000000 := by decide
+
+/-- `dt_bump(t, '%d%s' % (n, c))` for `c` in d/w/h/n/s adds exactly `n` days / weeks / hours / minutes / seconds -/
+theorem fixed_exact_str (c : Char) (us : Int) (hc : unitUs c = some us) (t n : Int) :
+    bumpStr t (tenor n c) = checkRange (t + n * us) := by
+  obtain ⟨st, h1, e1⟩ := fixed_units_exact t n c us hc
+  have hcu : c ∈ periodUnits ∧ c.toLower = c := by
+    unfold unitUs at hc; split at hc <;> first | (constructor <;> decide) | cases hc
+  rw [← e1]; exact bumpStr_unit t n c hcu.1 st (by rw [hcu.2]; exact h1)
+
+/-- `+x` then `-x` returns to `t` for the fixed-length units, on strings: `dt_bump(dt_bump(t, 'nd'), '-nd') = t` -/
+theorem fixed_inverse_str (c : Char) (us : Int) (hc : unitUs c = some us) (t n r : Int) (ht : InRange t)
+    (h : bumpStr t (tenor n c) = .ok r) : bumpStr r (tenor (-n) c) = .ok t := by
+  rw [fixed_exact_str c us hc] at h ⊢
+  rw [checkRange_ok] at h
+  rw [checkRange_ok, h.2, Int.neg_mul]
+  exact ⟨by have : t + n * us + -(n * us) = t := by omega
+            rw [this]; exact ht, by omega⟩
+
+example : okVal (bumpStr 63082281600000000 (tenor (-36) 'h')) = some 63082152000000000 := by decide +kernel
+
+/-- `+x` then `-x` returns for month / quarter / year steps from a day of month ≤ 28 — every start date of years 1..9999, no
+condition on the target other than that the first bump succeeded -/
+theorem month_inverse_all (y m d : Nat) (v : Valid y m d) (hd : d ≤ 28) (dy dm r : Int)
+    (h : applyStep (mkDate y m d) (.ymdShift dy dm) = .ok r) :
+    applyStep r (.ymdShift (-dy) (-dm)) = .ok (mkDate y m d) := by
+  rw [ymdShift_small y m d v hd] at h
+  obtain ⟨y', m', hym, h1, h2, h3, h4, hr⟩ := h
+  have hv := v
+  unfold Valid at hv
+  have hb' := dim_bounds y' m' h3 h4
+  have v' : Valid y' m' d := by unfold Valid; omega
+  rw [hr, ymdShift_small y' m' d v' hd]
+  have hn := ym_normal ((y : Int) + dy) ((m : Int) + dm)
+  rw [hym] at hn
+  exact ⟨y, m, ym_of_normal _ _ _ _ (by omega) (by omega) (by omega), hv.1, hv.2.1, hv.2.2.1, hv.2.2.2.1, rfl⟩
+
+/-- the same as a statement about the unit table: for `m`, `q`, `y` the step the table gives for `-n` undoes the step for `n` -/
+theorem month_inverse_table (c : Char) (hc : c = 'm' ∨ c = 'q' ∨ c = 'y') (y m d : Nat) (v : Valid y m d) (hd : d ≤ 28) (n r : Int) :
+    ∃ st st', bumpUnit c n = some st ∧ bumpUnit c (-n) = some st' ∧
+      (applyStep (mkDate y m d) st = .ok r → applyStep r st' = .ok (mkDate y m d)) := by
+  have T := month_units n
+  have T' := month_units (-n)
+  rcases hc with rfl | rfl | rfl
+  · refine ⟨_, _, T.1, T'.1, fun h => ?_⟩
+    have := month_inverse_all y m d v hd 0 n r h
+    rwa [Int.neg_zero] at this
+  · refine ⟨_, _, T.2.1, T'.2.1, fun h => ?_⟩
+    have := month_inverse_all y m d v hd 0 (3 * n) r h
+    rwa [Int.neg_zero, ← Int.mul_neg] at this
+  · refine ⟨_, _, T.2.2, T'.2.2, fun h => ?_⟩
+    have := month_inverse_all y m d v hd n 0 r h
+    rwa [Int.neg_zero] at this
+
+/-- … and on strings: `dt_bump(dt_bump(t, 'nq'), '-nq') = t` when `t` is a date (midnight) with day ≤ 28 -/
+theorem month_inverse_str (c : Char) (hc : c = 'm' ∨ c = 'q' ∨ c = 'y') (y m d : Nat) (v : Valid y m d) (hd : d ≤ 28) (n r : Int)
+    (h : bumpStr (mkDate y m d) (tenor n c) = .ok r) : bumpStr r (tenor (-n) c) = .ok (mkDate y m d) := by
+  obtain ⟨st, st', h1, h2, hi⟩ := month_inverse_table c hc y m d v hd n r
+  have hcu : c ∈ periodUnits ∧ c.toLower = c := by rcases hc with rfl | rfl | rfl <;> decide
+  rw [bumpStr_unit _ n c hcu.1 st (by rw [hcu.2]; exact h1)] at h
+  rw [bumpStr_unit _ (-n) c hcu.1 st' (by rw [hcu.2]; exact h2)]
+  exact hi h
+
+example : Valid 2023 11 28 ∧ okVal (bumpStr (mkDate 2023 11 28) (tenor 1 'q')) = some (mkDate 2024 2 28) := by decide +kernel
+
+/-- `'nm'`/`'nq'`/`'ny'` on strings from a date at midnight: keep the day of month or roll the excess into the following month -/
+theorem month_keep_or_roll_str (c : Char) (k : Int) (hc : (c = 'm' ∧ k = 1) ∨ (c = 'q' ∧ k = 3) ∨ (c = 'y' ∧ k = 12))
+    (y m d : Nat) (v : Valid y m d) (n : Int) (y' m' : Nat)
+    (hym : Gen.ym (y : Int) ((m : Int) + k * n) = ((y' : Int), (m' : Int))) (hy' : 1 ≤ y' ∧ y' < 9999) :
+    bumpStr (mkDate y m d) (tenor n c) =
+      .ok (if d ≤ dim y' m' then mkDate y' m' d
+           else mkDate (nextMonth y' m').1 (nextMonth y' m').2 (d - dim y' m')) := by
+  have T := month_units n
+  rcases hc with ⟨rfl, rfl⟩ | ⟨rfl, rfl⟩ | ⟨rfl, rfl⟩
+  · rw [bumpStr_unit _ n 'm' (by decide) _ T.1]
+    exact month_keep_or_roll y m d v 0 n y' m' ((ym_congr _ _ _ _ (by omega)).trans hym) hy'
+  · rw [bumpStr_unit _ n 'q' (by decide) _ T.2.1]
+    exact month_keep_or_roll y m d v 0 (3 * n) y' m' ((ym_congr _ _ _ _ (by omega)).trans hym) hy'
+  · rw [bumpStr_unit _ n 'y' (by decide) _ T.2.2]
+    exact month_keep_or_roll y m d v n 0 y' m' ((ym_congr _ _ _ _ (by omega)).trans hym) hy'
+
+-- 2000-01-31 + 1m = 2000-03-02 (February 2000 has 29 days: the excess 2 days roll into March)
+example : bumpStr (mkDate 2000 1 31) (tenor 1 'm') = .ok (mkDate 2000 3 2) := ok_of_okVal (by decide +kernel)
+
+/-! ### month units away from midnight: the code resets the time of day (why the claim is "at midnight only") -/
+
+/-- a month / quarter / year step ignores the time of day of its start … -/
+theorem month_resets_time (t dy dm : Int) :
+    applyStep t (.ymdShift dy dm) = applyStep (t - todOf t) (.ymdShift dy dm) := by
+  have : ymdOf (t - todOf t) = ymdOf t := by
+    unfold ymdOf; congr 2; unfold ordOf todOf DAYUS; omega
+  simp only [applyStep, this]
+
+/-- … and its result is always a midnight -/
+theorem month_result_midnight (t dy dm r : Int) (h : applyStep t (.ymdShift dy dm) = .ok r) : todOf r = 0 := by
+  simp only [applyStep, ymdDate, mkMonthPlus] at h
+  split at h
+  · rw [checkRange_ok] at h; rw [h.2]; exact todOf_ofOrd _
+  · cases h
+
+/-- hence away from midnight `+x` then `-x` does NOT return to `t` (2000-01-10 10:00 `'1m'` `'-1m'` = 2000-01-10 00:00) -/
+theorem month_intraday_inverse_false :
+    ∃ t r₁ r₂ : Int, bumpStr t (tenor 1 'm') = .ok r₁ ∧ bumpStr r₁ (tenor (-1) 'm') = .ok r₂ ∧ r₂ ≠ t ∧ r₂ = t - todOf t :=
+  ⟨63083095200000000, 63085737600000000, 63083059200000000, ok_of_okVal (by decide +kernel), ok_of_okVal (by decide +kernel),
+    by decide, by decide +kernel⟩
+
+/-! ### K3 exactly: WHEN monotonicity in `t` fails -/
+
+/-- the exact failure set of "monotone in t": for `t₁ ≤ t₂` the images are reversed iff `t₁` lies on a Saturday / Sunday, `t₂`
+lies no later than the Monday that follows `t₁`, and `t₂` has the earlier time of day.  (All three days Sat, Sun, Mon of one
+weekend are sent to the same day and keep their own time of day.)  For every `n`; nothing else ever fails. -/
+theorem b_mono_iff (t₁ t₂ n r₁ r₂ : Int) (h : t₁ ≤ t₂)
+    (h₁ : applyStep t₁ (.bday n) = .ok r₁) (h₂ : applyStep t₂ (.bday n) = .ok r₂) :
+    r₂ < r₁ ↔ (5 ≤ wdOf t₁ ∧ ordOf t₂ ≤ ordOf t₁ + (7 - wdOf t₁) ∧ todOf t₂ < todOf t₁) := by
+  have e₁ := (bday_ok _ _ _ h₁).2
+  have e₂ := (bday_ok _ _ _ h₂).2
+  have s1 := split_t t₁; have s2 := split_t t₂
+  have ho : ordOf t₁ ≤ ordOf t₂ := by unfold ordOf DAYUS at *; omega
+  have hm := b_mono_days (ordOf t₁) (ordOf t₂) n ho
+  have hq := b_eq_iff (ordOf t₁) (ordOf t₂) n ho
+  unfold wdOf at *
+  generalize bOff (wd (ordOf t₁)) n = B₁ at *
+  generalize bOff (wd (ordOf t₂)) n = B₂ at *
+  have w1 := wd_range (ordOf t₁)
+  generalize wd (ordOf t₁) = W at *
+  unfold ofOrd DAYUS at *
+  constructor
+  · intro hlt
+    have heq : ordOf t₁ + B₁ = ordOf t₂ + B₂ := by omega
+    have := hq.1 heq
+    omega
+  · intro ⟨a, b, c⟩
+    have := hq.2 (Or.inr ⟨a, b⟩)
+    omega
+
+-- the hypotheses and the right-hand side are satisfiable: the K3 witness (Sun 23:00 / Mon 00:30)
+example : (63750754800000000 : Int) ≤ 63750760200000000 ∧ 5 ≤ wdOf 63750754800000000 ∧
+    ordOf 63750760200000000 ≤ ordOf 63750754800000000 + (7 - wdOf 63750754800000000) ∧
+    todOf 63750760200000000 < todOf 63750754800000000 := by decide +kernel
+
+/-- the same on strings -/
+theorem b_mono_iff_str (t₁ t₂ n r₁ r₂ : Int) (h : t₁ ≤ t₂)
+    (h₁ : bumpStr t₁ (tenor n 'b') = .ok r₁) (h₂ : bumpStr t₂ (tenor n 'b') = .ok r₂) :
+    r₂ < r₁ ↔ (5 ≤ wdOf t₁ ∧ ordOf t₂ ≤ ordOf t₁ + (7 - wdOf t₁) ∧ todOf t₂ < todOf t₁) := by
+  rw [bumpStr_b] at h₁ h₂; exact b_mono_iff t₁ t₂ n r₁ r₂ h h₁ h₂
+
+/-- consequence: monotone whenever the earlier instant is on a weekday (the later one may be anything) -/
+theorem b_mono_from_weekday (t₁ t₂ n r₁ r₂ : Int) (h : t₁ ≤ t₂) (w₁ : wdOf t₁ < 5)
+    (h₁ : applyStep t₁ (.bday n) = .ok r₁) (h₂ : applyStep t₂ (.bday n) = .ok r₂) : r₁ ≤ r₂ := by
+  have := b_mono_iff t₁ t₂ n r₁ r₂ h h₁ h₂
+  omega
+
+/-! ### the two readings of a negative bump from a weekend day agree -/
+
+/-- from a Saturday / Sunday, `'-kb'` (k ≥ 1) — defined by the code as "roll forward to Monday, then k weekdays back" — is also
+simply the k-th weekday before `o` itself: no weekday lies between `o` and that Monday -/
+theorem b_weekend_bwd (o : Int) (h : 5 ≤ wd o) (k : Nat) :
+    iter prevWd (k + 1) o = o + bOff (wd o) (-((k : Int) + 1)) := by
+  have r := b_weekend_roll o (-((k : Int) + 1)) h
+  have hb := b_nth_bwd (o + (7 - wd o)) (by omega) (k + 1)
+  rw [r.1] at hb
+  rw [r.2]
+  have : ((k + 1 : Nat) : Int) = (k : Int) + 1 := by omega
+  rw [this] at hb
+  rw [← hb, iter_succ_inner, iter_succ_inner]
+  congr 1
+  have w := wd_range o
+  unfold prevWd wd at *; omega
+
+/-- … while forward the roll matters: from a weekend day `'kb'` is the k-th weekday after the MONDAY (`'0b'` = that Monday,
+which is the first weekday after `o`, so `'kb'` is the (k+1)-th weekday after `o`) -/
+theorem b_weekend_fwd (o : Int) (h : 5 ≤ wd o) (k : Nat) :
+    iter nextWd (k + 1) o = o + bOff (wd o) k := by
+  have r := b_weekend_roll o k h
+  have hb := b_nth_fwd (o + (7 - wd o)) (by omega) k
+  rw [r.1] at hb
+  rw [r.2, ← hb, iter_succ_inner]
+  congr 1
+  have w := wd_range o
+  unfold nextWd wd at *; omega
+
+example : (5 : Int) ≤ wd 730120 ∧ iter prevWd 2 730120 = 730118 ∧ iter nextWd 2 730120 = 730123 := by decide
+
+/-! ### no period token is silently ignored -/
+
+/-- whether a letter has a branch does not depend on the count -/
+theorem bumpUnit_isSome_indep (c : Char) (n n' : Int) : (bumpUnit c n).isSome = (bumpUnit c n').isSome := by
+  unfold bumpUnit; repeat' split
+  all_goals rfl
+
+/-- every token the tokenizer can deliver from lower-cased text has a branch in the unit chain: the "no branch, `t` unchanged"
+case of the loop (the code's `if/elif` chain has no `else`; such a token would be consumed and ignored) cannot occur -/
+theorem no_token_ignored (cs : List Char) (n : Int) (c : Char) (rest : List Char)
+    (h : nextToken (cs.map Char.toLower) = some (n, c, rest)) : (bumpUnit c n).isSome = true := by
+  have hs : ∀ cs : List Char, (signSplit cs).2 = cs ∨ ∃ x, cs = x :: (signSplit cs).2 := by
+    intro cs; unfold signSplit; split <;> simp
+  have hsp : ∀ cs : List Char, (spanDigits cs).1 ++ (spanDigits cs).2 = cs := by
+    intro cs; induction cs with
+    | nil => rfl
+    | cons a as ih => unfold spanDigits; split <;> simp [ih]
+  unfold nextToken at h
+  simp only [] at h
+  split at h
+  · cases h
+  · cases h
+  · rename_i ds u r _ hsd
+    split at h
+    · rename_i hu
+      simp only [Option.some.injEq, Prod.mk.injEq] at h
+      obtain ⟨_, hc, _⟩ := h
+      subst hc
+      have hmem : u ∈ cs.map Char.toLower := by
+        have h2 := hsp (signSplit (cs.map Char.toLower)).2
+        rw [hsd] at h2
+        have hu2 : u ∈ (signSplit (cs.map Char.toLower)).2 := by rw [← h2]; simp
+        rcases hs (cs.map Char.toLower) with e | ⟨x, e⟩
+        · rw [e] at hu2; exact hu2
+        · rw [e]; exact List.mem_cons_of_mem _ hu2
+      simp only [List.mem_map] at hmem
+      obtain ⟨x, _, hx⟩ := hmem
+      have hlow : u.toLower = u := by
+        have : ∀ u ∈ periodUnits, (∃ x : Char, x.toLower = u) → u.toLower = u := by
+          intro u hu ⟨x, hx⟩
+          have hup : ∀ u ∈ periodUnits, u.toLower = u ∨ u.isUpper = true := by decide
+          rcases hup u hu with e | e
+          · exact e
+          · exfalso
+            subst hx
+            unfold Char.toLower Char.isUpper at e
+            split at e
+            · rename_i hx
+              simp only [ge_iff_le, decide_eq_true_eq] at e
+              have := e.2
+              revert this e hx
+              generalize x.val = v
+              intro hx e h2
+              simp only [UInt32.le_iff_toNat_le, UInt32.toNat_add] at *
+              have c1 : ('A' : Char).val.toNat = 65 := by decide
+              have c2 : ('Z' : Char).val.toNat = 90 := by decide
+              have c3 : (('a' : Char).val - ('A' : Char).val).toNat = 32 := by decide
+              simp only [c1, c2, c3] at hx e h2
+              omega
+            · rename_i hx
+              simp only [ge_iff_le, decide_eq_true_eq] at e
+              exact hx e
+        exact this u hu ⟨x, hx⟩
+      have := units_covered u hu
+      rw [hlow] at this
+      rw [bumpUnit_isSome_indep u n 0]; exact this
+    · cases h
+
+example : nextToken ("-3B7d".toList.map Char.toLower) = some (-3, 'b', "7d".toList) := by decide
+
 end Pyg.Props.C09
